@@ -59,7 +59,10 @@ def ref_key(s):
 
 CORPUS_WANT = {("vYYYY.JJJ.INC0", "v2024.364.0", "global"): "v2024.366.0",      # day 366 of a leap year exists
                ("vYYYY.00J.INC0", "v2023.001.0", "default"): "v2023.365.0",     # day 365 of a common year exists
-               ("YYYY.0M.0D", "2020.02.01", "default"): "2020.03.01"}           # February 30th does not
+               ("YYYY.0M.0D", "2020.02.01", "default"): "2020.03.01",           # February 30th does not
+               ("MAJOR.MINOR.PATCH[-TAG]", "1.2.1", "global"): "1.3.0-beta",     # dev < alpha < beta of one release
+               ("MAJOR.MINOR.PATCH[-TAG]", "1.2.2", "global"): "1.3.0-preview",  # preview is a release-candidate spelling: above alpha
+               ("MAJOR.MINOR.PATCH[-TAG]", "1.2.2", "default"): "1.3.0-preview"}
 
 
 def expected_current(impl, pat, cfg_version, scope, tags_all, tags_branch):
@@ -95,6 +98,10 @@ def run(rep, tier, seed, model_ok=True, effort=1):
               ("MAJOR.MINOR[.PATCH]", ["--minor"], "1.1", "global", ["1.2.0", "1.1"], ["1.1"], False),
               ("MAJOR.MINOR[.PATCH]", ["--minor"], "1.1", "default", ["1.3.0", "1.1"], ["1.3.0", "1.1"], False),
               ("MAJOR.MINOR.PATCH[PYTAG[NUM]]", ["--patch"], "1.2.2", "global", ["1.2.3rc", "1.2.2"], ["1.2.2"], False),
+              # pre-release tags of one release without its final tag; the rarely used tag `preview`
+              ("MAJOR.MINOR.PATCH[-TAG]", ["--patch"], "1.2.1", "global", ["1.3.0-dev", "1.3.0-alpha", "1.3.0-beta", "1.2.1"], ["1.2.1"], False),
+              ("MAJOR.MINOR.PATCH[-TAG]", ["--patch"], "1.2.2", "global", ["1.2.2", "1.3.0-alpha", "1.3.0-preview"], ["1.2.2"], False),
+              ("MAJOR.MINOR.PATCH[-TAG]", ["--patch"], "1.2.2", "default", ["1.2.2", "1.3.0-alpha", "1.3.0-preview"], ["1.2.2", "1.3.0-alpha", "1.3.0-preview"], False),
               # tags made on the last day of a (leap) year with a day-of-year part
               ("vYYYY.JJJ.INC0", [], "v2024.364.0", "global", ["v2024.364.0", "v2024.366.0", "1.2.3"], ["v2024.364.0"], False),
               ("vYYYY.00J.INC0", [], "v2023.001.0", "default", ["v2023.365.0", "v2023.001.0"], ["v2023.365.0", "v2023.001.0"], False),
